@@ -18,7 +18,7 @@ from .. import astq
 from ..fold import Folder, RegexConst, classes_in
 from ..loader import AnalysisError, ClassInfo, FuncInfo, dotted, norm, walk_no_nested
 from ..report import Ctx
-from ._c09_helpers import Cond, Ev, Lin, NFunc, Path, Sym, canon_atom, ieval, implies_ge0, implies_le, lin, normalise, symname, truth_of, vername
+from ._c09_helpers import Cond, Ev, Lin, NFunc, Path, Sym, canon_atom, class_writes, ieval, implies_ge0, implies_le, lin, normalise, symname, truth_of, vername
 
 LEVEL_TEXT = (
     "Static decision of structural clauses of C09 on /repo's current source, on all paths of a normalised form of each "
@@ -34,8 +34,9 @@ LEVEL_TEXT = (
     "get_input_stream agrees with the documented table over its five condition atoms (declared length above the maximum "
     "refused first; maximum-limited stream / raw stream / empty stream / length-limited stream), and get_content_length "
     "is total (digits-only ASCII pattern, ValueError -> 0, chunked/absent -> None, clamped at 0 - checked by evaluating "
-    "each path over sample integers); (R9.7) readall leaves its loop only on exhaustion or an empty read, never loops "
-    "on an empty read, and accumulates every non-empty read. Byte-exact prefix equality follows from these clauses plus "
+    "each path over sample integers); (R9.7) readall reads only under a test that the limit is not reached (first and later "
+    "rounds), leaves its loop only on exhaustion or an empty read, never loops on an empty read, and accumulates every "
+    "non-empty read (directly or through a chunk generator it joins). Byte-exact prefix equality follows from these clauses plus "
     "io.RawIOBase's contract and is not itself checked."
 )
 TRUSTED = ["CPython ast and re._parser", "io.RawIOBase routes read/readline/readlines/iteration through readinto/readall", "the underlying stream honours its own read(n)/readinto(b) contract"]
@@ -79,9 +80,14 @@ def _find_roles(repo, ls: ClassInfo) -> None:
     found: dict[str, set[str]] = {"stream": set(), "limit": set(), "is_max": set(), "pos": set()}
     for i, p in enumerate(paths):
         cur: dict[str, set[str]] = {k: set() for k in found}
+        # attributes of self, and the fields of a state object that __init__ builds and keeps in an attribute of self
+        flat: list[tuple[str, ast.AST]] = []
         for key, v in p.env.items():
-            if not key.startswith(sn + "."):
-                continue
+            if key.startswith(sn + "."):
+                flat.append((key, v))
+                if isinstance(v, ast.Name):
+                    flat.extend((f"{key}.{k2.split('.', 1)[1]}", v2) for k2, v2 in p.env.items() if k2.startswith(v.id + "."))
+        for key, v in flat:
             term = "self." + key.split(".", 1)[1]
             if isinstance(v, ast.Name) and v.id == p_stream:
                 cur["stream"].add(term)
@@ -104,10 +110,41 @@ def _find_roles(repo, ls: ClassInfo) -> None:
                 if isinstance(x, ast.Attribute) and isinstance(x.ctx, ast.Store) and isinstance(x.value, ast.Name) and x.value.id == s2:
                     rewritten.add("self." + x.attr)
         found["pos"] &= rewritten
+    if len(found["is_max"]) != 1:
+        found["is_max"] = {"self.<is_max>"}  # kept in another representation: the hooks are analysed through __init__ anyway
     for k, v in found.items():
         if len(v) != 1:
             raise AnalysisError(f"LimitedStream.__init__: the attribute holding the {k} is not unique ({sorted(v)})")
     _R.stream, _R.limit, _R.is_max, _R.pos = (next(iter(found[k])) for k in ("stream", "limit", "is_max", "pos"))
+
+
+def _role_nodes(fi: FuncInfo, term: str) -> list[ast.Attribute]:
+    """the places in a method that name the attribute (chain) `term` = self.a[.b], also through `x = self.a`."""
+    sn = fi.params[0] if fi.params else "self"
+    path = term.split(".", 1)[1]
+    counts: dict[str, int] = {}
+    for x in ast.walk(fi.node):
+        if isinstance(x, ast.Name) and isinstance(x.ctx, ast.Store):
+            counts[x.id] = counts.get(x.id, 0) + 1
+    alias: dict[str, str] = {}
+    for x in ast.walk(fi.node):
+        if isinstance(x, ast.Assign) and len(x.targets) == 1 and isinstance(x.targets[0], ast.Name) and counts.get(x.targets[0].id) == 1 and isinstance(x.value, ast.Attribute):
+            d_ = dotted(x.value)
+            if d_ and d_.startswith(sn + "."):
+                alias[x.targets[0].id] = d_
+    out = []
+    for x in ast.walk(fi.node):
+        if isinstance(x, ast.Attribute):
+            d_ = dotted(x)
+            if not d_:
+                continue
+            root, _, rest = d_.partition(".")
+            if root in alias and rest:
+                d_ = alias[root] + "." + rest
+                root, _, rest = d_.partition(".")
+            if root == sn and rest == path:
+                out.append(x)
+    return out
 
 
 def _want_helper(h: FuncInfo) -> bool:
@@ -235,7 +272,7 @@ def run(ctx: Ctx) -> None:
         "R9.4": "every slice store into the caller's buffer `b[:n] = src` has len(src) == n by construction",
         "R9.5": "an I/O error of an underlying call reaches a handler that calls on_disconnect(error=...) and leaves; an empty result calls on_disconnect(); decision tables of the two hooks",
         "R9.6": "the outcome of every path of get_input_stream equals the documented table over its condition atoms; get_content_length is total",
-        "R9.7": "readall leaves its read loop only when exhausted or after an empty read, never repeats after an empty read, and accumulates every non-empty read",
+        "R9.7": "readall reads only under a test that the limit is not reached, leaves its read loop only when exhausted or after an empty read, never repeats after an empty read, and accumulates every non-empty read",
     }.items():
         ctx.rule(rid, text)
 
@@ -257,11 +294,12 @@ def run(ctx: Ctx) -> None:
     # ---------------- R9.1 -------------------------------------------
     users: dict[str, list[ast.Attribute]] = {}
     for name, fi in ls.methods.items():
-        sn = fi.params[0] if fi.params else "self"
-        hits = [n for n in ast.walk(fi.node) if astq.is_self_attr(n, _R.attr(_R.stream), sn)]
+        hits = _role_nodes(fi, _R.stream)
         if hits:
             users[name] = hits
     init_only_stores = all(isinstance(n.ctx, ast.Store) for n in users.get("__init__", []))
+    if _R.stream.count(".") > 1 and "__init__" not in users:
+        users["__init__"] = []  # kept inside a state object that __init__ builds: the object's own constructor stores it
     stray = sorted(set(users) - accounted - {"__init__"})
     for nm in stray:
         if ls.methods[nm].decorators and not any(d in ("property", "staticmethod", "classmethod") for d in ls.methods[nm].decorators):
@@ -438,15 +476,39 @@ def run(ctx: Ctx) -> None:
     # ---------------- R9.3 -------------------------------------------
     writers: dict[str, list[ast.AST]] = {}
     for name, fi in ls.methods.items():
-        sn = fi.params[0] if fi.params else "self"
+        role_hits = {id(x) for x in _role_nodes(fi, _R.pos)}
         for n in walk_no_nested(fi.node):
             if isinstance(n, (ast.Assign, ast.AugAssign, ast.AnnAssign)):
                 tg = n.targets if isinstance(n, ast.Assign) else [n.target]
                 flat = [y for x in tg for y in (x.elts if isinstance(x, (ast.Tuple, ast.List)) else [x])]
-                if any(astq.is_self_attr(t_, _R.attr(_R.pos), sn) for t_ in flat):
+                if any(id(t_) in role_hits for t_ in flat):
                     writers.setdefault(name, []).append(n)
+    if _R.pos.count(".") > 1 and "__init__" not in writers:
+        writers["__init__"] = [ls.methods["__init__"].node]  # initialised by the constructor of the state object
     init_ok = bool(writers.get("__init__"))  # that every path of __init__ leaves 0 there is how the attribute was identified
     stray_w = sorted(set(writers) - accounted - {"__init__"})
+    # a helper that writes the position and is shared (`_advance(count=0)` used by tell()): every other method that reaches
+    # it must leave the position unchanged on all of its paths
+    if stray_w:
+        called = {c.func.attr for o in ls.methods.values() for c in astq.calls(o.node) if isinstance(c.func, ast.Attribute) and isinstance(c.func.value, ast.Name) and c.func.value.id == (o.params[0] if o.params else "self")}
+        movers = []
+        for name, fi in ls.methods.items():
+            if name in accounted or name == "__init__" or "." in name:
+                continue
+            if name in stray_w and name.startswith("_") and name in called:
+                continue  # a private helper: judged through the methods that call it
+            nfo = normalise(repo, fi, _want_helper)
+            if not (name in stray_w or any(h.name in stray_w for h in nfo.inlined)):
+                continue
+            for p in Sym(nfo, repo=repo).paths():
+                cur = lin(p.env[_R.pos]) if _R.pos in p.env else Lin({_R.pos: 1})
+                d_ = (cur - Lin({_R.pos: 1})) if cur is not None else None
+                if d_ is None or not (d_.is_const() and d_.const == 0):
+                    movers.append(name)
+                    break
+        if not movers:
+            accounted = accounted | {w for w in stray_w if any(h.name == w for h in nf.inlined)}
+            stray_w = []
     ctx.ob("R9.3", "_pos written only by __init__ (0) and inside readinto", init_ok and not stray_w and bool(set(writers) & accounted),
            f"writes: {[(k, norm(w)) for k, ws in sorted(writers.items()) for w in ws]}; accounted methods: {sorted(accounted)}", ri, ri.node, "_pos writers")
 
@@ -513,14 +575,36 @@ def run(ctx: Ctx) -> None:
     if oe is None or od is None:
         raise AnalysisError("on_exhausted / on_disconnect missing")
     ctx.saw(oe, od)
-    MAX = _R.is_max
-    pe = Sym(normalise(repo, oe, _want_helper), repo=repo).paths()
+    # the hooks decide on what __init__ stored for `is_max` - the flag itself, an enum member, an exception class ...:
+    # every path of __init__ (with what it assumed about the parameter) seeds the attributes the hook then reads
+    init = ls.methods["__init__"]
+    MAX = init.params[3]
+    init_paths = [p for p in Sym(normalise(repo, init, lambda h: False), repo=repo).paths() if p.outcome in ("return", "fall")]
+    only_init = {a for a in (class_writes(ls).get("__init__") or set()) if a not in (class_writes(ls).get("*") or set())}
+
+    def hook_paths(hook: FuncInfo) -> list[Path]:
+        out_: list[Path] = []
+        nfh = normalise(repo, hook, _want_helper)
+        for ip in init_paths:
+            env0 = {k: v for k, v in ip.env.items() if k.startswith("self.") and k.split(".", 1)[1] in only_init}
+            for k, v in list(env0.items()):  # the fields of a state object built by __init__ that nothing else writes
+                if isinstance(v, ast.Name):
+                    for k2, v2 in ip.env.items():
+                        if k2.startswith(v.id + ".") and f"{k.split('.', 1)[1]}.{k2.split('.', 1)[1]}" not in (class_writes(ls).get("*") or set()):
+                            env0[k2] = v2
+            for hp in Sym(nfh, repo=repo).paths(env0=env0):
+                known = {k for k, _, _ in hp.conds}
+                hp.conds = [c for c in ip.conds if c[0] not in known] + hp.conds
+                out_.append(hp)
+        return out_
+
+    pe = hook_paths(oe)
     bad, good = table_check(pe, [MAX], lambda v: "raise RequestEntityTooLarge" if v[MAX] else "return", _hook_outcome, lambda v: f"is_max={v[MAX]}")
     ctx.ob("R9.5", "on_exhausted raises RequestEntityTooLarge iff the limit is a maximum", not bad and len(good) == 2, "; ".join(x for b in bad.values() for x in b) or f"all {len(pe)} paths agree with the table over {{self._limit_is_max}}", oe, oe.node, "on_exhausted")
     if len(od.params) < 2:
         raise AnalysisError("on_disconnect: no error parameter")
     ERRN = f"{od.params[1]} is None"
-    pd = Sym(normalise(repo, od, _want_helper), repo=repo).paths()
+    pd = hook_paths(od)
     bad, good = table_check(pd, [MAX, ERRN], lambda v: "return" if (v[MAX] and v[ERRN]) else "raise ClientDisconnected", _hook_outcome, lambda v: f"is_max={v[MAX]}, error is None={v[ERRN]}")
     ctx.ob("R9.5", "on_disconnect raises ClientDisconnected unless (limit is a maximum and no error)", not bad and len(good) == 2, "; ".join(x for b in bad.values() for x in b) or f"all {len(pd)} paths agree with the table over {{is_max, error is None}}", od, od.node, "on_disconnect")
 
@@ -608,6 +692,8 @@ def _readall(ctx: Ctx, ls: ClassInfo) -> None:
         lim_terms = [_R.limit] + ([vername(_R.limit, after.k)] if after is not None else [])
         return any(implies_ge0(conds, Lin({pos_term: 1, lt: -1})) for lt in lim_terms)
 
+    rebound: set[str] = set()  # accumulators that grow by being rebound (`x = x + d`, `x += d` on an immutable): aliases do not see it
+
     def accumulated(p: Path, r: Ev) -> str | None:
         symtxt = symname(r.k)
         for e in p.events[p.events.index(r) + 1:]:
@@ -616,10 +702,22 @@ def _readall(ctx: Ctx, ls: ClassInfo) -> None:
             if e.kind == "call" and isinstance(e.raw, ast.Call) and isinstance(e.raw.func, ast.Attribute) and e.raw.func.attr in ("extend", "append", "write") and e.call.args and norm(_unwrap_bytes(e.call.args[0])) == symtxt:  # type: ignore[union-attr]
                 b = e.raw.func.value
                 return b.id if isinstance(b, ast.Name) else norm(b)
+            if e.kind == "call" and e.k is not None and isinstance(e.call, ast.Call) and isinstance(e.call.func, ast.Attribute) and e.call.func.attr in ("extend", "append", "write") and e.call.args and norm(_unwrap_bytes(e.call.args[0])) == symtxt:
+                # through a local that holds the bound method (`add = out.extend`): the container is whichever local the
+                # call left marked as changed
+                changed = [nm for nm, v in p.env.items() if isinstance(v, ast.Name) and v.id == vername(nm, e.k) and "." not in nm]
+                if changed:
+                    return sorted(changed)[0]
             if e.kind == "aug" and isinstance(e.call, ast.AugAssign) and isinstance(e.call.op, ast.Add) and norm(_unwrap_bytes(e.call.value)) == symtxt and isinstance(e.call.target, ast.Name):
+                cur = p.env.get(e.call.target.id)
+                left = cur.left if isinstance(cur, ast.BinOp) else None
+                mutable = isinstance(left, ast.Call) and (dotted(left.func) or "").rsplit(".", 1)[-1] in ("bytearray", "list", "BytesIO") or isinstance(left, ast.List)
+                if not mutable:
+                    rebound.add(e.call.target.id)
                 return e.call.target.id
         for name, v in p.env.items():
             if isinstance(v, ast.BinOp) and isinstance(v.op, ast.Add) and norm(_unwrap_bytes(v.right)) == symtxt and not name.startswith("self."):
+                rebound.add(name)
                 return name
         return None
 
@@ -669,10 +767,54 @@ def _readall(ctx: Ctx, ls: ClassInfo) -> None:
                     bad.append(f"{p.describe()[:200]}: `{norm(r.raw)}` happens without a test that the limit is not reached")
         return bad
 
-    loop_heads = [h for h in nf.cfg.nodes if h.kind == "loop" or (h.kind == "join" and isinstance(h.ast, ast.While) and getattr(h.ast, "_inlined_from", None) is None)]
-    later = [p for h in loop_heads for p in sym.paths(start=h, stop=lambda n, h=h: n is h)]
-    bad_exit += sorted(set(guarded_reads(paths) + guarded_reads(later)))[:3]
-    result_ok = (generator is not None and accs == {"<yield>"}) or bool(accs) and all(p.end is not None and isinstance(p.end.ast, ast.Return) and p.end.ast.value is not None and (astq.names_in(p.end.ast.value) & accs) for p in rets_after_read)
+    # later rounds: paths that go through the loop twice see what the first round leaves behind for the second
+    # (the loop condition again, a flag set at the tail, a test after the append)
+    bad_exit += sorted(set(guarded_reads(paths) + guarded_reads(sym.paths(rounds=2))))[:3]
+    # the object the chunks go into is the object the result is made from: names are followed through plain copies
+    # (`a = b`, a helper's parameter) and through the definitions of the locals the return expression mentions
+    parent_: dict[str, str] = {}
+
+    def find(x: str) -> str:
+        while parent_.get(x, x) != x:
+            x = parent_[x]
+        return x
+
+    defs_: dict[str, list[ast.AST]] = {}
+    for st_ in walk_no_nested(nf.node):
+        if isinstance(st_, ast.Assign) and len(st_.targets) == 1 and isinstance(st_.targets[0], ast.Name):
+            defs_.setdefault(st_.targets[0].id, []).append(st_.value)
+            if isinstance(st_.value, ast.Name):
+                parent_[find(st_.targets[0].id)] = find(st_.value.id)
+        elif isinstance(st_, ast.AnnAssign) and isinstance(st_.target, ast.Name) and st_.value is not None:
+            defs_.setdefault(st_.target.id, []).append(st_.value)
+            if isinstance(st_.value, ast.Name):
+                parent_[find(st_.target.id)] = find(st_.value.id)
+
+    def sources(e: ast.AST, depth: int = 0) -> set[str]:
+        out_ = set()
+        for nm in astq.names_in(e):
+            out_.add(find(nm))
+            if depth < 3:
+                for d_ in defs_.get(nm, []):
+                    if not isinstance(d_, ast.Name):
+                        out_ |= sources(d_, depth + 1)
+        return out_
+
+    def exact_sources(e: ast.AST, depth: int = 0) -> set[str]:
+        out_ = set(astq.names_in(e))
+        if depth < 3:
+            for nm in list(out_):
+                for d_ in defs_.get(nm, []):
+                    if not isinstance(d_, ast.Name) and nm not in rebound:
+                        out_ |= exact_sources(d_, depth + 1)
+        return out_
+
+    acc_classes = {find(a) for a in accs if a not in rebound}
+
+    def built_from(e: ast.AST) -> bool:
+        return bool(sources(e) & acc_classes) or bool(exact_sources(e) & (accs & rebound))
+
+    result_ok = (generator is not None and accs == {"<yield>"}) or bool(accs) and all(p.end is not None and isinstance(p.end.ast, ast.Return) and p.end.ast.value is not None and built_from(p.end.ast.value) for p in rets_after_read)
     lp = loops[0]
     ctx.ob("R9.7", "every non-empty read is appended to the result", not bad_acc and result_ok, "; ".join(bad_acc[:3]) or f"accumulator(s) {sorted(accs)}; every return after the loop is built from it: {result_ok}", ra, lp, "readall accumulates")
     ctx.ob("R9.7", "readall loop exits only on exhaustion or an empty read", not bad_exit and not bad_loop and n_read_paths >= 2, "; ".join((bad_exit + bad_loop)[:3]) or f"{n_read_paths} path(s) through a read: each either repeats with the data appended or leaves on an empty read / a true exhaustion test", ra, lp, "readall loop exits")
@@ -689,7 +831,7 @@ def input_stream_rule(ctx: Ctx, rule: str) -> None:
     _input_stream(ctx, rule)
 
 
-def _classify_stream(v: ast.AST | None, stream: str, CL: str, MAXP: str) -> str:
+def _classify_stream(v: ast.AST | None, stream: str, CL: str, MAXP: str, path: Path | None = None) -> str:
     v = _strip_cast(v)
     if v is None:
         return "None"
@@ -703,7 +845,10 @@ def _classify_stream(v: ast.AST | None, stream: str, CL: str, MAXP: str) -> str:
         a2 = astq.arg_or_kw(v, 2, "is_max")
         src = "stream" if a0 is not None and norm(_strip_cast(a0)) == stream else (norm(a0) if a0 is not None else "?")
         lim = {CL: "content_length", MAXP: "max_content_length"}.get(norm(a1) if a1 is not None else "?", norm(a1) if a1 is not None else "?")
-        return f"LimitedStream({src}, {lim}, is_max={norm(a2) if a2 is not None else 'False'})"
+        flag = norm(a2) if a2 is not None else "False"
+        if a2 is not None and path is not None and not isinstance(a2, ast.Constant) and path.truth(a2) is not None:
+            flag = str(path.truth(a2))  # `is_max=terminated` where the path has decided the flag
+        return f"LimitedStream({src}, {lim}, is_max={flag})"
     return f"other:{norm(v)[:60]}"
 
 
@@ -745,7 +890,7 @@ def _input_stream(ctx: Ctx, RULE: str = "R9.6") -> None:
         if p.outcome == "raise":
             return f"raise {p.raised() or '?'}"
         if p.outcome == "return":
-            return _classify_stream(p.value, STREAM, CL, MAXP)
+            return _classify_stream(p.value, STREAM, CL, MAXP, p)
         return p.outcome
 
     def label(v) -> str:
@@ -776,16 +921,12 @@ def _input_stream(ctx: Ctx, RULE: str = "R9.6") -> None:
     _content_length(ctx, RULE)
 
 
-def _content_length(ctx: Ctx, RULE: str) -> None:
+def _length_table(ctx: Ctx, RULE: str, fi: FuncInfo, nf: NFunc, HCL: str, HTE: str, what: str, construct: str) -> None:
+    """the documented table of the declared length, decided on the paths of `nf`: HCL / HTE are the terms that denote the
+    Content-Length and Transfer-Encoding header values in it (parameters, or `environ.get(...)` lookups)."""
     repo = ctx.repo
-    gl = repo.func("sansio.utils.get_content_length")
-    ctx.saw(gl)
-    if len(gl.params) < 2:
-        raise AnalysisError("sansio get_content_length: expected (http_content_length, http_transfer_encoding)")
-    HCL, HTE = gl.params[0], gl.params[1]
-    nf = normalise(repo, gl)
     sym = Sym(nf, repo=repo)
-    _HANDLER_SCOPE.update(cls=None, module=gl.module)
+    _HANDLER_SCOPE.update(cls=None, module=fi.module)
     V = f"_plain_int({HCL})"
 
     def evaluates_v(n) -> bool:
@@ -829,15 +970,15 @@ def _content_length(ctx: Ctx, RULE: str) -> None:
         if p.outcome != "return" or p.value is None:
             bad.append(f"{p.describe()}: plain length ends with {got}")
             continue
-        for s in SAMPLES:
-            env = {V: s}
+        for s_ in SAMPLES:
+            env = {V: s_}
             feasible = True
             for k, v, n in p.conds:
                 if V not in k:
                     continue
                 test = sym_cond_value(k, env)
                 if test is None:
-                    raise AnalysisError(f"get_content_length: condition `{k}` on the parsed length is not understood")
+                    raise AnalysisError(f"{what}: condition `{k}` on the parsed length is not understood")
                 if test != v:
                     feasible = False
                     break
@@ -845,14 +986,23 @@ def _content_length(ctx: Ctx, RULE: str) -> None:
                 continue
             r = ieval(p.value, env)
             if r is None:
-                raise AnalysisError(f"get_content_length: returned expression `{norm(p.value)}` is not understood")
-            if r != max(0, s):
-                bad.append(f"parsed length {s} -> {r} via `{norm(p.value)}` (expected {max(0, s)})")
+                raise AnalysisError(f"{what}: returned expression `{norm(p.value)}` is not understood")
+            if r != max(0, s_):
+                bad.append(f"parsed length {s_} -> {r} via `{norm(p.value)}` (expected {max(0, s_)})")
     caught = n_exc >= 1
     if not caught and parsed_sites:
         bad.append("a ValueError of _plain_int is not caught")
-    ctx.ob(RULE, "get_content_length: chunked or absent -> None; otherwise max(0, plain int); ValueError -> 0", not bad and n_none >= 1 and n_val >= 1 and len(parsed_sites) == 1,
-           "; ".join(sorted(set(bad))[:4]) or f"{n_none} streaming path(s) return None; {n_val} plain path(s) return max(0, n) for n in {SAMPLES}; {n_exc} ValueError path(s) return 0", gl, gl.node, "get_content_length table")
+    ctx.ob(RULE, f"{what}: chunked or absent -> None; otherwise max(0, plain int); ValueError -> 0", not bad and n_none >= 1 and n_val >= 1 and len(parsed_sites) == 1,
+           "; ".join(sorted(set(bad))[:4]) or f"{n_none} streaming path(s) return None; {n_val} plain path(s) return max(0, n) for n in {SAMPLES}; {n_exc} ValueError path(s) return 0", fi, fi.node, construct)
+
+
+def _content_length(ctx: Ctx, RULE: str) -> None:
+    repo = ctx.repo
+    gl = repo.func("sansio.utils.get_content_length")
+    ctx.saw(gl)
+    if len(gl.params) < 2:
+        raise AnalysisError("sansio get_content_length: expected (http_content_length, http_transfer_encoding)")
+    _length_table(ctx, RULE, gl, normalise(repo, gl), gl.params[0], gl.params[1], "get_content_length", "get_content_length table")
 
     pi = repo.func("_internal._plain_int")
     ctx.saw(pi)
@@ -889,26 +1039,10 @@ def _content_length(ctx: Ctx, RULE: str) -> None:
     wg = repo.func("wsgi.get_content_length")
     ctx.saw(wg)
     env = wg.params[0] if wg.params else "environ"
-    pw = [p for p in Sym(normalise(repo, wg, lambda h: False), repo=repo).paths() if p.outcome == "return"]
-    good_w = bool(pw)
-    seen_w = []
-    absent_keys = {(f"{env}.get('CONTENT_LENGTH') is None", True), (f"{env}.get('CONTENT_LENGTH', None) is None", True), (f"'CONTENT_LENGTH' in {env}", False)}
-    for p in pw:
-        v = p.value
-        got = {}
-        if isinstance(v, ast.Constant) and v.value is None and (p.cset() & absent_keys):
-            seen_w.append({"<header absent>": "None"})  # what the sansio function answers for an absent header
-            continue
-        if isinstance(v, ast.Call) and (dotted(v.func) or "").rsplit(".", 1)[-1] == "get_content_length":
-            a = astq.arg_or_kw(v, 0, HCL)
-            b = astq.arg_or_kw(v, 1, HTE)
-            got = {HCL: norm(a) if a is not None else None, HTE: norm(b) if b is not None else None}
-        seen_w.append(got)
-        if any("\u03a3" in str(x) for x in got.values()):
-            raise AnalysisError(f"wsgi.get_content_length: how the header values reach the sansio function is not understood ({got})")
-        if not (got.get(HCL) in (f"{env}.get('CONTENT_LENGTH')", f"{env}.get('CONTENT_LENGTH', None)") and got.get(HTE) in (f"{env}.get('HTTP_TRANSFER_ENCODING')", f"{env}.get('HTTP_TRANSFER_ENCODING', None)")):
-            good_w = False
-    ctx.ob(RULE, "wsgi.get_content_length reads CONTENT_LENGTH and HTTP_TRANSFER_ENCODING", good_w, f"arguments of the sansio call: {seen_w}", wg, wg.node, "environ keys")
+    # the wrapper together with what it calls in the sansio module: one function of the two environ entries, whichever of
+    # the two layers decides what (the test for a streaming request may live in either)
+    nfw = normalise(repo, wg, lambda h: h is not wg, cross_module=True)
+    _length_table(ctx, RULE, wg, nfw, f"{env}.get('CONTENT_LENGTH')", f"{env}.get('HTTP_TRANSFER_ENCODING')", "wsgi.get_content_length (with the sansio function it calls)", "environ keys")
 
 
 def sym_cond_value(key: str, env: dict[str, int]) -> bool | None:
